@@ -67,6 +67,9 @@ type netCase struct {
 	Ecc    []int64         `json:"ecc"`
 	Har    [][2]int64      `json:"har"`
 	Res    [][2]int64      `json:"res"`
+	Resh   [][2][2]int64   `json:"resh"` // halved weights: residual closeness = a + b*sqrt(2)
+	Farh   [][2]int64      `json:"farh"`
+	Harh   [][2]int64      `json:"harh"`
 	Rwlap  [][][2]int64    `json:"rwlap"`
 	Pr     []prRec         `json:"pr"`
 	Hits   *hitsRec        `json:"hits"`
@@ -115,7 +118,45 @@ func nearAbs(f float64, r, bound *big.Rat, slack float64) bool {
 	return diff.Cmp(lim) <= 0
 }
 
+// halvedMeasures runs the distance measures on the same graph with every weight halved (half-integer
+// shortest-path lengths). The expected values come from the specification: farness and harmonic
+// closeness as rationals, residual closeness as the pair (a, b) of a + b*sqrt(2).
+func (k *checker) halvedMeasures(g graph.Graph, src string, p path.AllShortest) {
+	c := k.b.c
+	if len(c.Resh) != c.N {
+		return
+	}
+	var m map[int64]float64
+	if k.call("Farness", func() { m = network.Farness(g, p) }) {
+		k.nodeMap("Farness/half-weights/"+src, m, c.Farh, false)
+	}
+	if k.call("Harmonic", func() { m = network.Harmonic(g, p) }) {
+		k.nodeMap("Harmonic/half-weights/"+src, m, c.Harh, false)
+	}
+	if k.call("Residual", func() { m = network.Residual(g, p) }) {
+		for i := 1; i <= c.N; i++ {
+			id := k.b.id(int64(i))
+			a := rat(c.Resh[i-1][0][0], c.Resh[i-1][0][1])
+			bq := rat(c.Resh[i-1][1][0], c.Resh[i-1][1][1])
+			got, ok := m[id]
+			if !ok {
+				k.fail("Residual/half-weights/"+src, "value", fmt.Sprintf("node %d (model %d) missing", id, i))
+				continue
+			}
+			// the only irrational constant of the harness: sqrt(2) as a float64 (error 1 ulp, far below
+			// the tolerance); a and b are exact and small
+			af, _ := a.Float64()
+			bf, _ := bq.Float64()
+			want := af + bf*math.Sqrt2
+			if math.IsNaN(got) || math.Abs(got-want) > relTol*math.Max(1, math.Abs(want)) {
+				k.fail("Residual/half-weights/"+src, "value", fmt.Sprintf("node %d (model %d): got %v, the definition gives %s + %s*sqrt(2) = %v", id, i, got, a.RatString(), bq.RatString(), want))
+			}
+		}
+	}
+}
+
 type builder struct {
+	half bool // build weighted containers with every weight halved
 	c   *netCase
 	ids []int64 // model node i (1-based) -> real id
 }
@@ -124,6 +165,13 @@ func (b *builder) id(i int64) int64 { return b.ids[i-1] }
 
 // build makes the real graph. weightedType selects the Weighted* container
 // (unit weights when the case is unweighted).
+func (b *builder) w(x int64) float64 {
+	if b.half {
+		return float64(x) / 2
+	}
+	return float64(x)
+}
+
 func (b *builder) build(weightedType bool) graph.Graph {
 	c := b.c
 	switch {
@@ -142,7 +190,7 @@ func (b *builder) build(weightedType bool) graph.Graph {
 			g.AddNode(simple.Node(b.id(int64(i))))
 		}
 		for _, e := range c.Edges {
-			g.SetWeightedEdge(simple.WeightedEdge{F: simple.Node(b.id(e[0])), T: simple.Node(b.id(e[1])), W: float64(e[2])})
+			g.SetWeightedEdge(simple.WeightedEdge{F: simple.Node(b.id(e[0])), T: simple.Node(b.id(e[1])), W: b.w(e[2])})
 		}
 		return g
 	case !c.Dir && !weightedType:
@@ -160,7 +208,7 @@ func (b *builder) build(weightedType bool) graph.Graph {
 			g.AddNode(simple.Node(b.id(int64(i))))
 		}
 		for _, e := range c.Edges {
-			g.SetWeightedEdge(simple.WeightedEdge{F: simple.Node(b.id(e[0])), T: simple.Node(b.id(e[1])), W: float64(e[2])})
+			g.SetWeightedEdge(simple.WeightedEdge{F: simple.Node(b.id(e[0])), T: simple.Node(b.id(e[1])), W: b.w(e[2])})
 		}
 		return g
 	}
@@ -479,6 +527,19 @@ func replayNetwork(in *core.Lines, args []string, seed int64, sum *core.Summary)
 			if okFw {
 				k.distances("FloydWarshall", fw)
 				k.distanceMeasures(g, "floyd", fw)
+			}
+			if wt {
+				hb := &builder{c: b.c, ids: b.ids, half: true}
+				hg := hb.build(true)
+				hk := &checker{b: hb, sum: sum, kind: k.kind}
+				var hdj, hfw path.AllShortest
+				if hk.call("DijkstraAllPaths", func() { hdj = path.DijkstraAllPaths(hg) }) {
+					hk.halvedMeasures(hg, "dijkstra", hdj)
+				}
+				if hk.call("FloydWarshall", func() { hfw, _ = path.FloydWarshall(hg) }) {
+					hk.halvedMeasures(hg, "floyd", hfw)
+				}
+				sum.Count("half_weight_graphs", 1)
 			}
 			if !wt {
 				var m map[int64]float64
